@@ -28,6 +28,7 @@ class Driver:
         self.tf, self.csv, self.workdir = tf, csv, workdir
         self.csv_kwargs = csv_kwargs or {}
         self.decoys = []
+        self.mem_decoy = None
         self._reuse, self._n_single = None, 0
         if csv:
             self.path = os.path.join(workdir, "db.csv")
@@ -53,6 +54,22 @@ class Driver:
         else:
             from tinyflux.storages import MemoryStorage
             self.db = tf.TinyFlux(storage=MemoryStorage, auto_index=auto)
+            if decoys:
+                # another in-memory database lives in the same process and is rewritten now and then: every database has its own storage
+                try:
+                    self.mem_decoy = tf.TinyFlux(storage=MemoryStorage)
+                    self.mem_decoy.insert(tf.Point(measurement="decoy", tags={"a": "x"}, fields={"a": 1}))
+                    self.mem_decoy.insert(tf.Point(measurement="decoy2", tags={"a": "y"}, fields={"a": 2}))
+                except Exception:  # noqa
+                    self.mem_decoy = None
+        # every other history uses the database the way `with TinyFlux(...) as db:` does: entered here, left in close()
+        self._entered = False
+        if decoys and (len(workdir) + (1 if auto else 0)) % 2 == 0 and hasattr(self.db, "__enter__"):
+            try:
+                self.db.__enter__()
+                self._entered = True
+            except Exception:  # noqa
+                pass
         self.handles = {}
         self.builders = {}          # query builder objects shared by every query of this history (dbmodel.real_query)
 
@@ -68,6 +85,12 @@ class Driver:
         if getattr(self, "_cwd0", None):
             os.chdir(self._cwd0)
             self._cwd0 = None
+        if getattr(self, "_entered", False):
+            self._entered = False
+            try:
+                self.db.__exit__(None, None, None)
+            except Exception:  # noqa
+                pass
         for d in [self.db] + self.decoys:
             try:
                 d.close()
@@ -87,6 +110,14 @@ class Driver:
                 return self._do(o)
         except Exception as e:  # noqa
             return ("raise", type(e).__name__)
+        finally:
+            if self.mem_decoy is not None and o[0] in ("remove", "update", "update_all", "drop", "handle", "remove_all"):
+                # the OTHER in-memory database is rewritten (a removal that matches nothing, an update of everything): none of the first one's business
+                try:
+                    self.mem_decoy.remove(self.tf.TagQuery().a == "no-such-value")
+                    self.mem_decoy.update_all(tags={"seen": "1"})
+                except Exception:  # noqa
+                    pass
 
     def _stamp(self, neutral, real):
         # a point inserted without a time: feed the model the time the implementation assigned, after checking that it
@@ -103,6 +134,13 @@ class Driver:
         from datetime import datetime, timezone
         self._clock0 = datetime.now(timezone.utc)
         share = {}
+        for p in pts:
+            if p is not None and p.get("rel_now") is not None and p["time"] is None:
+                # a point dated relative to the clock (a forecast a fraction of a second ahead): the instant is fixed here and recorded for the model
+                from datetime import timedelta
+                when = datetime.now(timezone.utc) + timedelta(seconds=p["rel_now"])
+                p["time"] = us_of(when)
+                p["stamped"] = True
         if self.csv and len(pts) == 1 and pts[0] is not None and pts[0]["time"] is not None:
             # CSV storage keeps rows, not objects: a caller may fill ONE Point object again and again (a sensor loop), editing its tags and
             # fields mappings IN PLACE between inserts - every insert must store the object's contents at that moment.  Every third single
@@ -193,7 +231,11 @@ class Driver:
             db.reindex()
             return ("unit",)
         if k == "reopen":
-            db.close()
+            if getattr(self, "_entered", False):
+                self._entered = False
+                db.__exit__(None, None, None)          # leaving the `with` block closes the database
+            else:
+                db.close()
             self.db = tf.TinyFlux(self.path, auto_index=o[1], **{k: v for k, v in self.csv_kwargs.items() if k != "access_mode"})
             self.handles = {}
             return ("unit",)
